@@ -511,11 +511,11 @@ impl InflightRequests {
     /// Removes timeedout requests if necessary to save memory
     fn cleanup(&mut self) {
         #[cfg(mainline_verif)]
-        let full = crate::verif::force_compaction();
-        #[cfg(not(mainline_verif))]
-        let full = false;
+        if crate::verif::force_compaction() {
+            self.requests.shrink_to_fit();
+        }
 
-        if !full && self.requests.len() < self.requests.capacity() {
+        if self.requests.len() < self.requests.capacity() {
             return;
         }
 
